@@ -266,6 +266,11 @@ def jobs(tier):
         js.append(l2_job("C09.stopdrop.r%d" % route, "l2/c09_stopdrop.c", defines={"ROUTE": route},
                          symbolic=["errno left by callbacks (int)", "quit code (uint8)"],
                          bounds="whole core: fd + timer + signal source + subscription, route %d into STOPPED" % route, unwind=13))
+    for kind in (0, 1):
+        for rounds in ((2,) if tier == "quick" else (1, 2, 3)):
+            js.append(l2_job("C09.rearm.%s.r%d" % (("tmr", "sub")[kind], rounds), "l2/c09_rearm.c", defines={"KIND": kind, "ROUNDS": rounds},
+                             symbolic=["errno left by callbacks (int)"],
+                             bounds="whole core: a one-shot %s re-armed from its own callback %d times" % (("timer", "subscription")[kind], rounds), unwind=13))
     return cmp_jobs(tier) + reg_jobs(tier) + sub_jobs(tier) + js
 
 
